@@ -16,10 +16,13 @@ import (
 func propertyAtPath(root j5reflect.Root, path string) (j5reflect.Property, error) {
 	parts := strings.Split(path, ".")
 	pathParts, tail := parts[:len(parts)-1], parts[len(parts)-1]
-	tail = strcase.ToLowerCamel(tail)
 	for _, part := range pathParts {
-		part = strcase.ToLowerCamel(part)
+		// the JSON name as given takes precedence over the camel-cased form
 		prop, err := root.GetProperty(part)
+		if err != nil {
+			part = strcase.ToLowerCamel(part)
+			prop, err = root.GetProperty(part)
+		}
 		if err != nil {
 			return nil, status.Error(codes.InvalidArgument, fmt.Sprintf("unknown property %q", part))
 		}
@@ -42,7 +45,10 @@ func propertyAtPath(root j5reflect.Root, path string) (j5reflect.Property, error
 		}
 		return nil, status.Error(codes.InvalidArgument, fmt.Sprintf("property %q is not a container", part))
 	}
-	return root.GetProperty(tail)
+	if prop, err := root.GetProperty(tail); err == nil {
+		return prop, nil
+	}
+	return root.GetProperty(strcase.ToLowerCamel(tail))
 }
 
 // queryScalarValue converts the text of a query parameter for the field types
